@@ -31,7 +31,7 @@ def class_source(name, feats, prev):
     if "big" in feats:
         L.append("\tbig: bigint")
     L.append("\tconstructor(self, n: int) {")
-    L.append("\t\tself.n = n")
+    L.append("\t\tself.n = n + kseed - 5")      # kseed: a module-level variable only the constructor mentions
     if "flag" in feats:
         L.append("\t\tself.flag = false")
     if "big" in feats:
@@ -83,7 +83,10 @@ def class_source(name, feats, prev):
     if "o" in feats:
         L.append("\tfn seto(self, v: int) {\n\t\tself.o = v\n\t}")
         L.append("\tfn clearo(self) {\n\t\tself.o = nil\n\t}")
+    if "xs" in feats:
+        L.append("\tfn sharexs(self, x: Self) {\n\t\tself.xs = x.xs\n\t}")
     if "peer" in feats:
+        L.append("\tfn getp(self) -> Self {\n\t\treturn get self.peer\n\t}")
         L.append("\tfn link(self, x: Self) {\n\t\tself.peer = x\n\t}")
         L.append("\tfn peern(self) -> int {\n\t\tp = get self.peer\n\t\treturn p.n\n\t}")
         L.append("\tfn bumppeer(self, d: int) -> int {\n\t\tp = get self.peer\n\t\treturn p.add(d)\n\t}")
@@ -115,6 +118,11 @@ class Interp:
         self.feats = {c[0]: set(c[1]) for c in classes}
         self.prev = {}
         prev = None
+        if in_lib:
+            self.lib.code("kseed = 5")
+            self.em.code("kseed = 1000")      # the importer's own variable of the same name must not be seen by the constructor
+        else:
+            self.em.code("kseed = 5")
         for name, feats in classes:
             self.prev[name] = prev
             src = class_source(name, set(feats), prev)
@@ -184,9 +192,9 @@ class Interp:
             h = "churn_%s" % cls
             if h not in self.helpers:
                 self.helpers.add(h)
-                em.code("%s = fn(q: int) -> int {\n\tt = %s(q)\n\tt.setn(q + 1)\n\treturn t.add(1) + t.getn()\n}" % (h, cls))
+                em.code("%s = fn(q: int) -> int {\n\tkseed = 300\n\tt = %s(q)\n\tr = t.getn()\n\tt.setn(q + 1)\n\treturn t.add(1) + t.getn() + r * 1000 + kseed - 300\n}" % (h, cls))
             em.code("print %s(%d)" % (h, op["n"]))
-            em.out(str(2 * (op["n"] + 2)))
+            em.out(str(2 * (op["n"] + 2) + op["n"] * 1000))
             return True
         a = self.vars.get(op.get("a"))
         if a is None:
@@ -298,6 +306,24 @@ class Interp:
                 o = self.new_obj(a.cls, a.n + 100)
                 name = self.fresh_var(o)
                 em.code("%s = %s.fresh()" % (name, an))
+            elif m == "chainfresh":
+                # a chained call on the DIFFERENT object a Self-returning method hands back; the receiver is untouched
+                em.code("print %s.fresh().add(%d)" % (an, op["v"]))
+                em.out(str(a.n + 100 + op["v"]))
+            elif m == "chainpeer":
+                if "peer" not in f or a.peer is None:
+                    return False
+                em.code("print %s.getp().add(%d)" % (an, op["v"]))
+                p = a.peer
+                p.n += op["v"]
+                if "xs" in self.feats[p.cls]:
+                    p.xs.append(op["v"])
+                em.out(str(p.n))
+            elif m == "sharexs":
+                if "xs" not in f or b is None or b.cls != a.cls:
+                    return False
+                em.code("%s.sharexs(%s)" % (an, op["b"]))
+                a.xs = b.xs
             elif m == "chain":
                 em.code("print %s.me().add(%d)" % (an, op["v"]))
                 a.n += op["v"]
@@ -472,7 +498,8 @@ class Interp:
 
 
 METHODS = ["getn", "setn", "resetn", "add", "twice", "me", "fresh", "chain", "swapn", "sets", "cat", "size", "resize", "seto",
-           "clearo", "link", "peern", "bumppeer", "getpeer", "attach", "othern", "copyfrom", "copyfrom", "getme", "toggle", "toggle", "negn", "grow", "both", "drain"]
+           "clearo", "link", "peern", "bumppeer", "getpeer", "attach", "othern", "copyfrom", "copyfrom", "getme", "toggle", "toggle", "negn", "grow", "both", "drain", "chainfresh", "chainpeer", "sharexs", "sharexs",
+           "resize"]
 
 
 def gen_op(rng, it):
@@ -490,7 +517,7 @@ def gen_op(rng, it):
         op["m"] = rng.choice(METHODS)
         op["t"] = rng.choice(STRS)
         op["b"] = rng.choice(names)
-        if op["m"] in ("swapn", "link", "copyfrom"):
+        if op["m"] in ("swapn", "link", "copyfrom", "sharexs"):
             op["b"] = rng.choice(same)
     elif kind in ("rebind", "rebindpeer"):
         op["b"] = rng.choice(same)
